@@ -583,7 +583,7 @@ func deepUnit(k, part, parts int, allOrders bool) harness.Unit {
 var Prop = &harness.Prop{
 	ID:          "C10",
 	Level:       "model_checking",
-	Rule:        "all small PKI topologies over a universe of ~65 real SM2 certificates described by ground-truth descriptors (valid/expired/not-yet-valid, CA true/false/no basic constraints, certSign yes/no/none, path length unset/0/1, forged signature, cross-signed, same-name-other-key, mutual loop A<->B, cross certificate of a root, permitted-domain constraints): every root subset of size <=2 x every intermediate subset up to the bound x 6 leaves, pools in forward, reverse (thorough: every) insertion order; leaves x 4 verification times x 14 host names x 5 usage requests over 5 pools; every constrained root x constrained intermediate x host name; leaf in the root pool; each Verify result is compared with a brute-force reference path validator over the descriptors (accept iff a path satisfying the statement exists) and every returned chain is checked link by link. states = distinct (roots, intermediates, leaf) topologies; transitions = Verify calls. Key identifiers are a dimension of the universe (subject key id derived/absent/unrelated, authority key id derived/absent/unrelated/that of another CA); the reference treats them as hints (RFC 5280). Extended key usages: leaves with server-gated-crypto, e-mail, unknown usages; CA certificates with an EKU extension next to twins without (ca-extended-key-usage unit); the model is evaluated in the statement's reading (leaf only) and in the chain-nested reading, verdicts are judged where both agree; server-gated crypto as serverAuth is not judged. Permitted-domain lists matching on the first of two and the middle of three entries; host names that only Unicode case folding would equate with a certified name. Far validity: periods ending in 9999 or lying centuries away, on each chain position, x verification years 1400..9000.",
+	Rule:        "all small PKI topologies over a universe of ~65 real SM2 certificates described by ground-truth descriptors (valid/expired/not-yet-valid, CA true/false/no basic constraints, certSign yes/no/none, path length unset/0/1, forged signature, cross-signed, same-name-other-key, mutual loop A<->B, cross certificate of a root, permitted-domain constraints): every root subset of size <=2 x every intermediate subset up to the bound x 6 leaves, pools in forward, reverse (thorough: every) insertion order; leaves x 4 verification times x 14 host names x 5 usage requests over 5 pools; every constrained root x constrained intermediate x host name; leaf in the root pool; each Verify result is compared with a brute-force reference path validator over the descriptors (accept iff a path satisfying the statement exists) and every returned chain is checked link by link. states = distinct (roots, intermediates, leaf) topologies; transitions = Verify calls. Key identifiers are a dimension of the universe (subject key id derived/absent/unrelated, authority key id derived/absent/unrelated/that of another CA); the reference treats them as hints (RFC 5280). Extended key usages: leaves with server-gated-crypto, e-mail, unknown usages; CA certificates with an EKU extension next to twins without (ca-extended-key-usage unit); the model is evaluated in the statement's reading (leaf only) and in the chain-nested reading, verdicts are judged where both agree; server-gated crypto as serverAuth is not judged. Permitted-domain lists matching on the first of two and the middle of three entries; host names that only Unicode case folding would equate with a certified name. An intermediate re-encoded as an X.509 version 1 certificate (no extensions, signed again) is part of the universe. Far validity: periods ending in 9999 or lying centuries away, on each chain position, x verification years 1400..9000.",
 	Assumptions: []string{"the reference validator implements exactly the conditions the statement lists; where the statement is silent the alphabet avoids the question (EKUs only on leaves, constrained CAs only with a non-empty host name, key ids a function of the key, SANs always present, all certificates v3)"},
 	Bounds: func(tier string) string {
 		if tier == "thorough" {
